@@ -100,6 +100,10 @@ class RecomputingDict(MutableMapping[RuleKey, AbstractStrategy]):
                 else:
                     rule = x
                 try:
+                    if any(c not in self.classdb for c in rule.children):
+                        # A child was never labelled by the searcher so this rule
+                        # was never added to the database.
+                        continue
                     start_label = self.classdb.get_label(rule.comb_class)
                     nonempty_children = tuple(
                         c for c in rule.children if not self.classdb.is_empty(c)
